@@ -1748,11 +1748,19 @@ class Context:
         from .errors import JSURIError
 
         out = []
-        for ch in text:
+        i, n = 0, len(text)
+        while i < n:
+            ch = text[i]
+            i += 1
             if ch in keep:
                 out.append(ch)
                 continue
-            if 0xD800 <= ord(ch) <= 0xDFFF:
+            code = ord(ch)
+            if 0xD800 <= code <= 0xDBFF and i < n and 0xDC00 <= ord(text[i]) <= 0xDFFF:
+                # a lead surrogate followed by a trail one: the character they spell
+                ch = chr(0x10000 + ((code - 0xD800) << 10) + (ord(text[i]) - 0xDC00))
+                i += 1
+            elif 0xD800 <= code <= 0xDFFF:
                 raise JSURIError("URI malformed")
             out.append("".join("%%%02X" % b for b in ch.encode("utf-8")))
         return "".join(out)
